@@ -653,11 +653,11 @@ class ModelBase:
             if isinstance(op, (ast.Eq, ast.NotEq)) and not isinstance(left, (ast.Subscript, ast.Name, ast.Attribute, ast.Call)) and isinstance(right, (ast.Subscript, ast.Name)):
                 left, right = right, left  # constant on the left: `-1 != x`
             elif isinstance(op, (ast.Eq, ast.NotEq)) and isinstance(left, ast.Name) and isinstance(right, ast.Subscript):
-                lv0 = interp.value_of(left)
+                lv0 = interp.cur(left)
                 if lv0 is not None and (lv0.nosite_marker or lv0.gname == 'gemdat.transitions.NOSITE'):
                     left, right = right, left  # `NOSITE != row['col']`
-            rv = interp.value_of(right)
-            lv = interp.value_of(left)
+            rv = interp.last.get(id(right)) or interp.cur(right)
+            lv = interp.last.get(id(left)) or interp.cur(left)
             # x is None / x is not None
             if isinstance(op, (ast.Is, ast.IsNot)) and rv is not None and rv.ty == 'None' and isinstance(left, ast.Name):
                 v = st.env.get(left.id)
@@ -689,9 +689,9 @@ class ModelBase:
             self.refine_ext(interp, test, frame, st, branch, op, left, right, lv, rv)
             return
         if isinstance(test, ast.Call):
-            fv = interp.value_of(test.func)
+            fv = interp.cur(test.func)
             if fv is not None and fv.ty == 'builtin' and fv.name == 'isinstance' and isinstance(test.args[0], ast.Name):
-                tv = interp.value_of(test)
+                tv = interp.cur(test)
                 v = st.env.get(test.args[0].id)
                 if tv is not None and tv.isinst and v is not None:
                     names = tv.isinst[1]
